@@ -150,6 +150,19 @@ CLAIMED['C08'] = dict(
     note='Trusted: Lean kernel; logging. Exact inversion for arbitrary pairs rests on evaluation + model correspondence (its Lean theorem is not proved yet). Fixed in /repo: F23 '
          '(__rsub__ left the delta reversed after an exception). Known findings F4b, F4c.',
     technique='Lean 4 proof (monotone error counter by induction over entries and phases) + differential correspondence incl. corrupted bases')
+CLAIMED['C16'] = dict(
+    text='Lean 4 theorems over a model of DeepSearch.__search and its __search_dict/__search_iterable/__search_str/__search_numbers/__skip_this (regular expressions as opaque '
+         'predicates): for every object of any size and nesting, every scalar item, every mode (case, exact, regexp, strict/loose numbers) and every exclusion set, every matched_values '
+         'hit is a leaf that matches under the mode at a location reachable without crossing an exclusion and carries that location\'s value (soundness, incl. the iterable equality '
+         'shortcut), every such leaf is reported (completeness), matched_paths are exactly the non-excluded children of reachable dictionaries whose path text matches, and no '
+         'reported location is excluded. Tied to the code by comparing the full result of the real DeepSearch / grep with the compiled model (own regex matcher for the pattern subset) '
+         'and with an independent reference search over generated objects x items drawn from leaves, substrings, keys, absent values x the mode grid x exclusions; extract() is run on '
+         'every matched_values path; the object is snapshotted.',
+    design='5/C16',
+    note='Trusted: Lean kernel; re (opaque in the theorems; the driver matcher is compared on every case); str.lower restricted to ASCII-cased strings; path text -> location is C09. '
+         'Object non-mutation is observed, not proved. Fixed in /repo: F12a/b (exclusions tested against the item, matched_paths before the skip test), F12c (quotes in keys), '
+         'F12d (walking str methods for a None item), F12e (loose numbers under case-insensitive search).',
+    technique='Lean 4 proof (mutual structural induction for soundness, induction over reachability derivations for completeness) + differential correspondence + independent reference')
 NA = {}
 
 checks = []
